@@ -22,7 +22,7 @@ echo "suite with change:  $suite"
 echo "demo without change: $base_demo"
 echo "demo with change:    $mut_demo"
 git -C /repo apply $D/patch.diff
-out=$(./check $ID --tier quick 2>&1 | grep -E "^(VIOLATION|OK|INCONCLUSIVE|KNOWN)" | head -5)
+out=$(./check $ID --tier quick 2>&1 | grep -E "^(VIOLATION|OK|INCONCLUSIVE)" | head -4)
 rc=$?
 git -C /repo checkout -- .
 echo "check on seeded tree: $out"
